@@ -64,6 +64,10 @@ def check(ctx) -> None:
     ctx.rule("C18.module-body", "every cst.Module(body=...) built by the writer lists the import statements before the code that uses the imported names (sys before the alias binding, random/pytest before the seed patch and fixture, SUT and exception imports before the test functions)", floor=6)
     ctx.rule("C18.exc-import", "every exception class named in pytest.raises(...) is recorded and imported unless it is a builtin - no other exclusion", floor=3)
     ctx.rule("C18.namespace-agree", "the statement re-execution namespace and the rendered import bind the same SUT names (one shared helper)", floor=2)
+    ctx.rule("C18.public-names", "ABSINT: _public_sut_names lists every public attribute of the module (imported names included) except the module alias, sorted", floor=1)
+    _public_names(ctx, repo)
+    ctx.rule("C18.accumulate", "the exception types collected for the import lines are accumulated over all test cases (the accumulator is only updated inside the per-test loop, never rebound)", floor=1)
+    _accumulate(ctx, repo)
     ctx.rule("C18.non-holding", "assertions that failed AND assertions that raised when replayed are both removed, each guarded only by its own membership test", floor=3)
 
     mod = repo.module(EX)
@@ -281,3 +285,57 @@ def _same_arm(a, b, stop):
         return chain
 
     return arm(a) == arm(b)
+
+
+def _public_names(ctx, repo) -> None:
+    import types as _types
+
+    from sa.engine import peval
+
+    EX = "pynguin.testcase.export"
+    fn = repo.func(EX, "_public_sut_names")
+    ctx.analysed(fn)
+    import enum as _enum
+    import http as _http
+
+    mod = _types.ModuleType("sut")
+    mod.module_0 = mod                      # the alias the module is bound to
+    mod.HTTPStatus = _http.HTTPStatus       # imported into the SUT, enum members are rendered as HTTPStatus.OK
+    mod.helper = _enum.unique               # imported function
+
+    def own():
+        return 1
+
+    own.__module__ = "sut"
+    mod.own = own
+    mod.LIMIT = 3
+    mod._private = 5
+    want = sorted(n for n in dir(mod) if not n.startswith("_") and n != "module_0")
+    try:
+        got = peval.Interp(resolver=peval.repo_resolver(repo), native_types=(_types.ModuleType,)).run_function(fn, [mod, "module_0"], {}, repo.module(EX))
+    except (peval.Undecided, peval.Raises) as exc:
+        ctx.undecide("C18.public-names", fn, str(exc))
+        return
+    ctx.check("C18.public-names", fn, list(got) == want, f"_public_sut_names yields {list(got)}, the public names of the module are {want}: a name that the rendered code uses by its bare name (an enum class the module imported, e.g. `HTTPStatus.OK`) is not imported by the written file (NameError under pytest)", what=f"public names = {want}", stmt="[public names]")
+
+
+def _accumulate(ctx, repo) -> None:
+    EX = "pynguin.testcase.export"
+    fn = repo.func(EX, "TestSuiteWriter.write")
+    ctx.analysed(fn)
+    # accumulators: names bound to an empty set()/list()/dict() before a loop and read after it
+    for loop in [n for n in fn.body if isinstance(n, ast.For)]:
+        before = [st for st in fn.body if st.lineno < loop.lineno]
+        accs = set()
+        for st in before:
+            tgt = st.targets[0] if isinstance(st, ast.Assign) else st.target if isinstance(st, ast.AnnAssign) else None
+            val = getattr(st, "value", None)
+            if isinstance(tgt, ast.Name) and isinstance(val, (ast.Call, ast.List, ast.Dict, ast.Set)) and norm(val) in ("set()", "[]", "{}", "list()", "dict()", "OrderedSet()"):
+                accs.add(tgt.id)
+        after_reads = {n.id for st in fn.body if st.lineno > loop.end_lineno for n in ast.walk(st) if isinstance(n, ast.Name)}
+        for name in sorted(accs & after_reads):
+            rebound = [n for n in ast.walk(loop) if isinstance(n, (ast.Assign, ast.AnnAssign)) and any(isinstance(t, ast.Name) and t.id == name for tg in (n.targets if isinstance(n, ast.Assign) else [n.target]) for t in ast.walk(tg))]
+            updated = [n for n in ast.walk(loop) if (isinstance(n, ast.Call) and isinstance(n.func, ast.Attribute) and norm(n.func.value) == name and n.func.attr in ("update", "add", "append", "extend")) or (isinstance(n, ast.AugAssign) and norm(n.target) == name)]
+            if not updated and not rebound:
+                continue
+            ctx.check("C18.accumulate", loop, not rebound, f"TestSuiteWriter.write rebinds `{name}` inside the loop over the test cases (line {rebound[0].lineno if rebound else 0}): what earlier test cases contributed is lost, e.g. `with pytest.raises(X):` is written without the import of X", what=f"`{name}` is accumulated over all test cases", stmt=f"[accumulator {name}]")
